@@ -78,6 +78,9 @@ EDGES = {
     "type_override_tuple_variant": 'pub enum R§ { A(#[ts(type = "string")] D§, i32), B(#[ts(type = "number")] D§), C { #[ts(type = "boolean")] d: D§, e: E§ } }',
     # two types of one file whose dependencies live in files whose specifiers differ only in the leading ./ and ../
     "same_tail_specifiers": "pub struct R§ { pub a: SA§, pub b: SB§ }",
+    # a flattened map with a user type as value; two types of one file whose names differ only in case
+    "flatten_map": "pub struct R§ { #[ts(flatten)] pub m: BTreeMap<String, M§>, pub z: i32 }",
+    "case_twins": "pub struct R§ { pub a: Cs§, pub b: CS§ }",
 }
 
 # What each root refers to, read off its source above the way the documentation describes dependencies:
@@ -135,20 +138,26 @@ EDGE_DEPS = {
     "type_override_tuple": (["E"], []),
     "type_override_tuple_variant": (["E"], []),
     "same_tail_specifiers": (["SA", "SB"], []),
+    "flatten_map": ([], ["M"]),          # the inline form of a map inlines its value type
+    "case_twins": (["Cs", "CS"], []),
 }
 HELPER_DEPS = {"D": ([], []), "E": ([], []), "G": ([], []), "M": (["D", "E"], []), "C": (["R", "D"], []), "S1": (["D"], []),
                "S2": (["E", "S1"], []), "FE": (["D", "E"], []), "LA": ([], []), "LB": ([], []), "UA": (["LA"], []), "UB": (["LB"], []),
                "UC": (["LA", "LB"], []), "GD": ([], ["G"]), "GP": ([], []),
-               "SA": (["DN"], []), "SB": (["DF"], []), "DN": ([], []), "DF": ([], [])}
+               "SA": (["DN"], []), "SB": (["DF"], []), "DN": ([], []), "DF": ([], []),
+               "Cs": (["D"], []), "CS": (["E"], [])}
 # export_to of the helper items that have one
 HELPER_PLACES = {"S1": "pair§.ts", "S2": "pair§.ts", "LA": "leaves§.ts", "LB": "leaves§.ts", "UA": "users§.ts", "UB": "users§.ts", "UC": "users§.ts",
-                 "SA": "tail§/shared§.ts", "SB": "tail§/shared§.ts", "DN": "tail§/dep§.ts", "DF": "dep§.ts"}
+                 "SA": "tail§/shared§.ts", "SB": "tail§/shared§.ts", "DN": "tail§/dep§.ts", "DF": "dep§.ts",
+                 "Cs": "case§.ts", "CS": "case§.ts"}
 DPLACES = {"default": "", "dir": '#[ts(export_to = "sub/")]', "file": '#[ts(export_to = "custom/file§.ts")]', "nested": '#[ts(export_to = "a/b/")]',
            "escape": '#[ts(export_to = "../esc§/D§.ts")]', "dotted": '#[ts(export_to = "x.y/d.ts/")]', "same_as_root": '#[ts(export_to = "both§.ts")]',
            "same_dotdot": '#[ts(export_to = "sub§/../both§.ts")]',
            # export_to given by an expression (a constant, a function call) instead of a literal
            # the TypeScript name given by an expression (not a literal): the file is named after it
            "renamed_expr": '#[ts(rename = concat!("Ren", "D§"))]', "renamed_expr_dir": '#[ts(rename = concat!("Ren", "D§"), export_to = "sub/")]',
+           # above the working directory (the working directory of such a case is two levels below the directory observed)
+           "above_cwd": '#[ts(export_to = "../../../above§/D§.ts")]',
            # file form without an extension (used by C11 only: written verbatim, no import can name it)
            "file_noext": '#[ts(export_to = "custom/noext§")]', "file_other_ext": '#[ts(export_to = "custom/d§.d.mts")]',
            "expr_dir": "#[ts(export_to = EXPR_DIR)]", "expr_file": '#[ts(export_to = expr_file("D§"))]'}
@@ -177,6 +186,8 @@ def case_unit(n, case):
         '#[derive(TS)] #[ts(export_to = "pair§.ts")] pub struct S1§ { pub d: D§ }',
         '#[derive(TS)] #[ts(export_to = "pair§.ts")] pub struct S2§ { pub e: E§, pub s: Option<Box<S1§>> }',
         '#[derive(TS)] #[ts(tag = "k")] pub enum FE§ { A { d: D§ }, B { e: E§ } }',
+        '#[derive(TS)] #[ts(export_to = "case§.ts")] pub struct Cs§ { pub d: D§, pub longer_than_its_twin: String }',
+        '#[derive(TS)] #[ts(export_to = "case§.ts")] pub struct CS§ { pub e: E§ }',
         '#[derive(TS)] #[ts(export_to = "tail§/dep§.ts")] pub struct DN§ { pub n: i32 }',
         '#[derive(TS)] #[ts(export_to = "dep§.ts")] pub struct DF§ { pub f: i32 }',
         '#[derive(TS)] #[ts(export_to = "tail§/shared§.ts")] pub struct SA§ { pub n: DN§ }',
@@ -218,7 +229,7 @@ def export_cases(tier, esm, stats, sandbox, twice=False, extra_dplaces=()):
     holds a few unrelated files.  -> (units, observations, {unit: result}, {unit: tree before})"""
     cfgp = os.path.join(vlib.TMP, "graphs-cfg.json")
     q = tier == "quick"
-    dplaces = [x for x in DPLACES if x not in ("file_noext", "file_other_ext")] if not q else ["default", "dir", "file", "escape", "same_as_root", "same_dotdot", "expr_dir", "expr_file", "renamed_expr", "renamed_expr_dir"]
+    dplaces = [x for x in DPLACES if x not in ("file_noext", "file_other_ext") and (twice or x != "above_cwd")] if not q else ["default", "dir", "file", "escape", "same_as_root", "same_dotdot", "expr_dir", "expr_file", "renamed_expr", "renamed_expr_dir"] + (["above_cwd"] if twice else [])
     dplaces = dplaces + [x for x in extra_dplaces if x not in dplaces]
     rplaces = list(RPLACES) if not q else ["default", "nested_file", "escape"]
     dirs = list(DIRS) if not q else ["relative", "absolute"]
@@ -242,7 +253,11 @@ def export_cases(tier, esm, stats, sandbox, twice=False, extra_dplaces=()):
             os.makedirs(os.path.dirname(os.path.join(d, rel)), exist_ok=True)
             open(os.path.join(d, rel), "w").write(text)
         before[u.name] = snapshot(d)
-        reqs.append({"name": u.name, "cwd": d, "dir": DIRS[u.meta["case"]["dir"]].replace("{ABS}", d)})
+        cwd_ = d
+        if u.meta["case"]["dplace"] == "above_cwd":
+            cwd_ = os.path.join(d, "wd", "deeper")
+            os.makedirs(cwd_)
+        reqs.append({"name": u.name, "cwd": cwd_, "dir": DIRS[u.meta["case"]["dir"]].replace("{ABS}", cwd_)})
     # the same process (one run of the runner) exports the modules whose paths leave the directory once more, into a
     # directory at another depth: what is written there must not depend on the first export
     again = [dict(r_, dir="deeper/nested/out2") for r_, u in zip(reqs, units) if twice and "escape" in (u.meta["case"]["dplace"], u.meta["case"]["rplace"])]
